@@ -61,10 +61,10 @@ def plan(tier, seed):
         for f, D, C in cells():
             for dt in DTYPES:
                 for comp in (True, False):
-                    for rep in range(4):
+                    for rep in range(12):
                         items.append(["config", f, D, C, dt, comp, rep])
-    items += [["flow", f, D, a, r] for f in FORMATS for D in (2, 3) for a in AXES for r in range(1 if tier == "quick" else 4)]
-    items += [["sequence", D, r] for D in (2, 3) for r in range(4 if tier == "quick" else 40)]
+    items += [["flow", f, D, a, r] for f in FORMATS for D in (2, 3) for a in AXES for r in range(1 if tier == "quick" else 12)]
+    items += [["sequence", D, r] for D in (2, 3) for r in range(4 if tier == "quick" else 120)]
     return items
 
 
